@@ -59,6 +59,14 @@ def run(ctx):
     r2(ctx)
     r3(ctx)
     r4(ctx)
+    # own coverage of the "length of its track" and "echoes the observed box" clauses (shared with C03 / C07 / C02)
+    ctx.rule('R01.9', 'length echoed = one history step per detection (update_history exactly once per optimize(), '
+                      'track_length += 1); the box kept for a continued track is the conversion of the updated filter '
+                      'state, untouched except for the confidence of the observation')
+    from props import C07
+    n = T.rule_length_step(ctx, 'R01.9')
+    n += C07.sequence_rule(ctx, 'R01.9')
+    ctx.floor('R01.9', n, 10)
 
 
 def tracked_type(ty):
